@@ -3,31 +3,55 @@ import P2sh.Core.Prog
 # C07 — statements leave the operand stack balanced (core fragment)
 
 From `compileS_correct` / `compileP_correct`: the code of every statement (`let`, expression
-statement, block, `while` loop), and of every
+statement, block, `while` / `loop`, `break` / `continue`, statement-level `if`), and of every
 statement sequence, takes the machine from a stack `stk` back to **the same** `stk`, whatever
-is underneath; an expression's code to `v :: stk`.  So in the core fragment the stack height
-after a statement equals the height before it, for every program and every run.
+is underneath — whether the statement ends normally or by a `break` / `continue` that leaves or
+restarts an enclosing loop; an expression's code to `v :: stk`.  So in the core fragment the
+stack height after a statement equals the height before it, for every program and every run.
+(`break` / `continue` occur in statement position only: the known finding K1, a jump with
+pending operands, is outside the fragment by construction.)
 -/
 namespace P2sh.Props.C07
 open P2sh P2sh.Core
 
-theorem statement_balanced (fuel : Nat) (s : CStmt) (C : List Instr) (K : List Val) (pos k : Nat) (stk g g' : List Val)
-    (h : codeAt C pos (compileS pos k s)) (hp : poolAt K k (constsS s)) (he : evalS fuel g s = some g') :
-    ∃ st', Steps C K ⟨pos, stk, g⟩ st' ∧ st'.pc = pos + bytes (compileS pos k s) ∧ st'.stk = stk :=
-  ⟨_, compileS_correct fuel s C K pos k stk g g' h hp he, rfl, rfl⟩
+theorem statement_balanced (fuel : Nat) (s : CStmt) (C : List Instr) (K : List Val) (pos k : Nat) (ctx : List LoopCtx)
+    (stk g g' : List Val) (f : Flow)
+    (h : codeAt C pos (compileS pos k ctx s)) (hp : poolAt K k (constsS s)) (he : evalS fuel g s = some (g', f)) :
+    ∃ st', Steps C K ⟨pos, stk, g⟩ st' ∧ st'.pc = exitPc ctx (pos + bytes (compileS pos k ctx s)) f ∧ st'.stk = stk :=
+  ⟨_, compileS_correct fuel s C K pos k ctx stk g g' f h hp he, rfl, rfl⟩
 
-theorem statements_balanced (fuel : Nat) (ss : List CStmt) (C : List Instr) (K : List Val) (pos k : Nat) (stk g g' : List Val)
-    (h : codeAt C pos (compileP pos k ss)) (hp : poolAt K k (constsP ss)) (he : evalP fuel g ss = some g') :
+theorem statements_balanced (fuel : Nat) (ss : List CStmt) (C : List Instr) (K : List Val) (pos k : Nat) (ctx : List LoopCtx)
+    (stk g g' : List Val) (f : Flow)
+    (h : codeAt C pos (compileP pos k ctx ss)) (hp : poolAt K k (constsP ss)) (he : evalP fuel g ss = some (g', f)) :
     ∃ st', Steps C K ⟨pos, stk, g⟩ st' ∧ st'.stk = stk :=
-  ⟨_, compileP_correct fuel ss C K pos k stk g g' h hp he, rfl⟩
+  ⟨_, compileP_correct fuel ss C K pos k ctx stk g g' f h hp he, rfl⟩
 
-/-- a `while` loop runs in constant stack: whatever the number of iterations of a terminating
-run, the machine leaves the loop with the stack it entered it with -/
-theorem loop_constant_stack (fuel : Nat) (c : CExpr) (body : List CStmt) (C : List Instr) (K : List Val) (pos k : Nat)
-    (stk g g' : List Val) (h : codeAt C pos (compileS pos k (.whileS c body))) (hp : poolAt K k (constsS (.whileS c body)))
-    (he : evalS fuel g (.whileS c body) = some g') :
-    ∃ st', Steps C K ⟨pos, stk, g⟩ st' ∧ st'.stk = stk ∧ st'.g = g' :=
-  while_constant_stack fuel c body C K pos k stk g g' h hp he
+/-- a loop — `while` or `loop`, labelled or not — runs in constant stack: whatever the number
+of iterations of a terminating run, and however the loop is left (falsey condition, `break`,
+a `break` / `continue` addressed to an enclosing loop), the machine leaves it with the stack
+it entered it with -/
+theorem loop_constant_stack (fuel : Nat) (s : CStmt) (hloop : (∃ lbl c body, s = .whileS lbl c body) ∨ (∃ lbl body, s = .loopS lbl body))
+    (C : List Instr) (K : List Val) (pos k : Nat) (ctx : List LoopCtx)
+    (stk g g' : List Val) (f : Flow) (h : codeAt C pos (compileS pos k ctx s)) (hp : poolAt K k (constsS s))
+    (he : evalS fuel g s = some (g', f)) :
+    ∃ st', Steps C K ⟨pos, stk, g⟩ st' ∧ st'.stk = stk ∧ st'.g = g' := by
+  rcases hloop with ⟨lbl, c, body, rfl⟩ | ⟨lbl, body, rfl⟩
+  · exact while_constant_stack fuel lbl c body C K pos k ctx stk g g' f h hp he
+  · exact Core.loop_constant_stack fuel lbl body C K pos k ctx stk g g' f h hp he
+
+/-- `break` and `continue` leave the stack as it is: after the jump the machine has the
+stack the statement (and hence the loop it leaves or restarts) was entered with -/
+theorem break_continue_balanced (l : Option String) (C : List Instr) (K : List Val) (pos k : Nat) (ctx : List LoopCtx) (stk g : List Val)
+    (hb : codeAt C pos (compileS pos k ctx (.breakS l)))
+    (hp : poolAt K k (constsS (.breakS l))) :
+    Steps C K ⟨pos, stk, g⟩ ⟨breakTarget ctx l, stk, g⟩ :=
+  compileS_correct 1 (.breakS l) C K pos k ctx stk g g (.brk l) hb hp (by simp [evalS])
+
+/-- non-vacuity: `let i = 0; loop { i = i + 1; if i > 2 { break; } }` ends with `i = 3`, normally -/
+example : evalP 40 [.null]
+    [.letG 0 (.lit (.int 0)),
+     .loopS none [.expr (.gset 0 (.bin .add (.gget 0) (.lit (.int 1)))),
+                  .ifS (.bin .greater (.gget 0) (.lit (.int 2))) [.breakS none] []]] = some ([.int 3], .normal) := by rfl
 
 theorem expression_pushes_one (e : CExpr) (C : List Instr) (K : List Val) (pos k : Nat) (stk g : List Val) (v : Val) (g' : List Val)
     (h : codeAt C pos (compile pos k e)) (hp : poolAt K k (consts e)) (he : eval g e = some (v, g')) :
